@@ -64,6 +64,16 @@ func (w *World) reachableModuleFuncs(root *ssa.Function) ([]*FuncInfo, map[*ssa.
 }
 
 func runC07(w *World, r *Report) {
+	r.Rule("stepspec", "a list decoder whose advance the wire format fixes (hello elements: next multiple of 8) advances by exactly that", 1)
+	stepSpecRule(w, r, "stepspec")
+	r.Rule("shadow", "no := in an inner scope re-declares a same-typed variable of the function that is read afterwards (or a named result): the value computed there would be lost", 1)
+	shadowRule(w, r, "shadow", func(fi *FuncInfo) bool {
+		return fi.Pkg.Types.Name() == "openflow13" || fi.Pkg.Types.Name() == "common" || fi.Pkg.Types.Name() == "util"
+	})
+	r.Rule("typednil-var", "a pointer result that can be a bare nil is not assigned to an interface-typed variable (a typed nil passes == nil tests the wrong way)", 1)
+	typedNilVarRule(w, r, "typednil-var", func(fi *FuncInfo) bool {
+		return fi.Pkg.Types.Name() == "openflow13" || fi.Pkg.Types.Name() == "common" || fi.Pkg.Types.Name() == "util"
+	})
 	r.Rule("storedlen", "a size function that returns a length field read from the wire is bounded by the input in the decoder", 5)
 	storedLenRule(w, r, "storedlen")
 	r.Rule("stateless", "the parser keeps no package-level state that a frame can change (a cache, a lock left held by a recovered panic, a shared decoding target): what one frame does cannot wedge or corrupt the parsing of the next", 8)
